@@ -329,40 +329,9 @@ def rule_tablefields(P) -> RuleResult:
 
 def rule_metarewrite(P) -> RuleResult:
     res = RuleResult('R-METAREWRITE')
-    fi = P.func(CO, 'Compiler._function')
-    want = {
-        'meta': "ast.Function('getitem', [ast.Column('meta'), key])",
-        'entry_meta': "ast.Function('getitem', [ast.Attribute(ast.Column('entry'), 'meta'), key])",
-        'any_meta': "ast.Function('getitem', [ast.Column('meta'), key, ast.Function('getitem', [ast.Attribute(ast.Column('entry'), 'meta'), key])])",
-    }
-
-    class DropParseinfo(ast.NodeTransformer):
-        def visit_Call(self, n):
-            self.generic_visit(n)
-            n.keywords = [k for k in n.keywords if k.arg != 'parseinfo']
-            return n
-    import copy
-    for name, expected in want.items():
-        blk = None
-        for n in ast.walk(fi.node):
-            if isinstance(n, ast.If) and unparse(n.test) == f"node.fname == '{name}'":
-                blk = n
-        construct = f'{fi.fq}:{name}'
-        if blk is None:
-            res.fail(construct, 'metarewrite:missing', f'{name}(key) is not rewritten into a metadata lookup', loc(fi))
-            continue
-        keydef = [s for s in blk.body if isinstance(s, ast.Assign) and unparse(s.targets[0]) == 'key']
-        nodedef = [s for s in blk.body if isinstance(s, ast.Assign) and unparse(s.targets[0]) == 'node']
-        if not keydef or unparse(keydef[0].value) != 'node.operands[0]' or not nodedef:
-            res.fail(construct, 'metarewrite:shape', f'{name}(key): rewrite shape not understood', loc(fi, blk))
-            continue
-        got = unparse(DropParseinfo().visit(copy.deepcopy(nodedef[0].value)))
-        if got != expected:
-            res.fail(construct, 'metarewrite:target', f'{name}(key) must become {expected}; it becomes {got}', loc(fi, blk))
-        elif not any(isinstance(s, ast.Return) and unparse(s.value) == 'self._compile(node)' for s in blk.body):
-            res.fail(construct, 'metarewrite:compile', f'the rewritten {name} expression is not compiled', loc(fi, blk))
-        else:
-            res.ok({'function': name, 'rewritten_to': expected})
+    # meta()/entry_meta()/any_meta(): decided on the paths of Compiler._function
+    from .sx_compiler import rewrite_cases
+    rewrite_cases(P, res)
     # getitem(container, key[, default]): the stored value when the key is present - whatever it is, including 0, '' and
     # FALSE - else the default (NULL without one); a NULL container gives NULL
     qe0 = P.module(QE)
